@@ -30,6 +30,29 @@
 
 static long stride = 8;
 
+/* ---- the three IDN backends expose different signatures (include/eav.h) ---- */
+#if defined(HAVE_IDNKIT)
+extern long adapter_ctx_live, adapter_ctx_bad, adapter_nullctx_use;
+static idn_resconf_t g_ctx;
+static idn_action_t g_act = IDN_ENCODE_REGIST;
+static eav_result_t *e6531 (const char *p, size_t n, bool t) { return is_6531_email (g_ctx, g_act, p, n, t); }
+static int utf8dom (int *r, const char *s, const char *e, bool t)
+{ idn_result_t rr = 0; int x = is_utf8_domain (g_ctx, g_act, &rr, s, e, t); *r = (int) rr; return x; }
+#define IDN_MSG(c) idn_result_tostring (c)
+#define BACKEND "idnkit"
+#elif defined(HAVE_LIBIDN)
+#include <idna.h>
+#define e6531 is_6531_email
+#define utf8dom is_utf8_domain
+#define IDN_MSG(c) idna_strerror (c)
+#define BACKEND "idn"
+#else
+#define e6531 is_6531_email
+#define utf8dom is_utf8_domain
+#define IDN_MSG(c) idn2_strerror (c)
+#define BACKEND "idn2"
+#endif
+
 /* ------------------------------------------------------------------ */
 /* kind 1: local part.  [1, optbits, n, bytes.., c12, (exp, mrc) x 4 modes]
  * c12 = 1: the spec says the cross-mode relation of C12 applies (all four codes equal) */
@@ -99,7 +122,7 @@ do_host (long *v, int nv)
     if (ascii && n > 0) {
         int idn = 0, r;
         const char *p = place (b, n, 0, -1);
-        r = is_utf8_domain (&idn, p, p + n, false);
+        r = utf8dom (&idn, p, p + n, false);
         unplace ();
         cnt.calls++; cnt.checked++; cnt.pinned += (exp == 0);
         if (r == 0 && exp == 0)
@@ -115,7 +138,7 @@ do_host (long *v, int nv)
 typedef eav_result_t *(*email_f)(const char *, size_t, bool);
 static const struct { int mode; email_f f; } emails[4] = {
     { 822, is_822_email }, { 5321, is_5321_email },
-    { 5322, is_5322_email }, { 6531, is_6531_email } };
+    { 5322, is_5322_email }, { 6531, e6531 } };
 
 static void
 sandwich (const char *what, const long *b, int n, int exp, int got, int model)
@@ -263,7 +286,7 @@ do_email (long *v, int nv)
                     else if (is_special_domain (D, end)) want = TLD_TYPE_SPECIAL;
                     else { const char *dot = strrchr (D, '.'); want = dot ? is_tld (dot + 1, end) : -EEAV_DOMAIN_NOT_FQDN; }
                 } else {
-                    want = is_utf8_domain (&widn, D, end, tld);
+                    want = utf8dom (&widn, D, end, tld);
                     if (widn != idn) viol ("email", "composition-idn", mode, ob * 2 + tld, b, n, widn, idn, rc);
                 }
             }
@@ -319,6 +342,19 @@ do_email (long *v, int nv)
 /* kind 9: policy with a caller-installed callback.  [9, modeEnum, mask, rc, eret, eerr] */
 static int cb_rc;
 static eav_result_t *
+#if defined(HAVE_IDNKIT)
+cb_fixed_u (idn_resconf_t c, idn_action_t a, const char *email, size_t length, bool tld_check)
+{
+    eav_result_t *r = calloc (1, sizeof *r);
+    (void) c; (void) a; (void) email; (void) length; (void) tld_check;
+    if (!r) die ("oom");
+    r->rc = cb_rc;
+    return r;
+}
+static eav_result_t *
+#else
+#define cb_fixed_u cb_fixed
+#endif
 cb_fixed (const char *email, size_t length, bool tld_check)
 {
     eav_result_t *r = calloc (1, sizeof *r);
@@ -342,7 +378,7 @@ do_policy (long *v, int nv)
     ev.allow_tld = (int) v[2];
     if (eav_setup (&ev) != 0) die ("setup");
     /* the callback fields are public: install one that returns the wanted result code */
-    if (ev.utf8) ev.utf8_cb = (eav_utf8_f) cb_fixed; else ev.ascii_cb = cb_fixed;
+    if (ev.utf8) ev.utf8_cb = cb_fixed_u; else ev.ascii_cb = cb_fixed;
     cb_rc = (int) v[3];
     ret = eav_is_email (&ev, "x", 1);
     err = ev.errcode;
@@ -511,7 +547,7 @@ do_history (long *v, int nv)
             else if ((ret == 1) != (err == 0) || (rc < 0 && err != -rc) || msg == NULL || (ret == 0 && !*msg))
                 hist_viol ("diagnostics inconsistent", v, nsteps, k, ret, err, rc);
             else if (fault != 0 && rc == -EEAV_IDN_ERROR
-                     && (ev->result->idn_rc != fault || fl != 0 || strcmp (msg, idn2_strerror (fault)) != 0))
+                     && (ev->result->idn_rc != fault || fl != 0 || strcmp (msg, IDN_MSG (fault)) != 0))
                 hist_viol ("IDN failure not reported with the library's message", v, nsteps, k, fault, ev->result->idn_rc, fl);
             else if (ret != s[3] || err != s[5] || rc != s[6] || fl != s[7]) {
                 cnt.drift++;
@@ -541,10 +577,22 @@ do_history (long *v, int nv)
         case 8: eav_free (ev); live = 0; lastmsg[0] = 0; break;
         default: die ("bad op");
         }
+#if defined(HAVE_IDNKIT)
+        if (adapter_ctx_live < 0 || adapter_ctx_live > 1)      /* one eav_t owns at most one backend context */
+            hist_viol ("backend contexts owned by one object", v, nsteps, k, 1, adapter_ctx_live, 0);
+#endif
         if (op == 5 && s[3] != 0) snprintf (lastmsg, sizeof lastmsg, "%s", "");
         if (op == 1) lastmsg[0] = 0;
     }
     if (live) eav_free (ev);
+#if defined(HAVE_IDNKIT)
+    cnt.checked++; cnt.pinned++;
+    if (adapter_ctx_live != 0)
+        hist_viol ("backend context not released after eav_free", v, nsteps, nsteps, 0, adapter_ctx_live, 0);
+    if (adapter_ctx_bad != 0)
+        hist_viol ("backend context created twice or destroyed twice", v, nsteps, nsteps, 0, adapter_ctx_bad, 0);
+    adapter_ctx_live = 0; adapter_ctx_bad = 0;
+#endif
 #ifdef VERIF_WRAP
     wrap_track = 0;
     cnt.checked++; cnt.pinned++;
@@ -576,7 +624,7 @@ do_robust (long *v, int nv, int with_idn)
         sink += is_ipv4 (p, e) + is_ipv6 (p, e) + is_ipaddr (p, e);
         sink += is_special_domain (p, e);
         sink += is_tld (p, e);
-        if (with_idn) sink += is_utf8_domain (&idn, p, e, true);
+        if (with_idn) sink += utf8dom (&idn, p, e, true);
         for (int m = 0; m < (with_idn ? 4 : 3); m++) for (int tld = 0; tld < 2; tld++) {
             eav_result_t *r = emails[m].f (p, n, tld);
             sink += r->rc;
@@ -599,6 +647,10 @@ main (int argc, char **argv)
     if (argc < 2) die ("usage: replay OUTDIR [stride]");
     if (argc > 2) stride = atol (argv[2]);
     common_init (argv[1], stride);
+#if defined(HAVE_IDNKIT)
+    if (idn_resconf_create (&g_ctx) != idn_success) die ("adapter");
+    adapter_ctx_live = 0;            /* the driver's own context is not the library's */
+#endif
 
     while ((r = getline (&line, &cap, stdin)) > 0) {
         if (r < 3 || line[0] != '"' || line[1] != '[') continue;
